@@ -525,6 +525,25 @@ def check_special(col):
     col.ev()
     if r1[0] == "exc" or list(r1[1].parameters) != ["k"] or r1[1].parameters["k"].annotation is not int:
         col.violation("agrees-with-runtime", {"predicate": "signature", "object": "callable:TD"}, f"signature(TD) = {r1[1]!r}", bucket="signature")
+    # qualifiers are transparent for unwrap (origin / args report the qualifier itself, by design)
+    TB = typing.TypeVar("TB", bound=int)
+    TCn = typing.TypeVar("TCn", int, str)
+    TF = typing.TypeVar("TF")
+    inner = {"TypeVar(bound=int)": TB, "TypeVar(int, str)": TCn, "TypeVar()": TF, "int": int, "list[int]": list[int],
+             "Optional[int]": typing.Optional[int], "NewType(int)": typing.NewType("QN", int), "alias(list[int])": typing.TypeAliasType("QA", list[int]),
+             "DC": N["DC"], "NewType(alias)": typing.NewType("QNA", typing.TypeAliasType("QA2", N["DC"]))}
+    for iname, x in inner.items():
+        for qname, q in (("Final", typing.Final), ("ClassVar", typing.ClassVar)):
+            for acc in ("unwrap",):
+                col.ev()
+                col.nt(f"{acc}|{qname}[{iname}]")
+                k1, r1 = tl.call(getattr(I, acc), q[x])
+                k2, r2 = tl.call(getattr(I, acc), x)
+                case = {"predicate": acc, "object": f"special:{qname}[{iname}]"}
+                if k1 == "exc":
+                    col.violation("never-raises", case, f"{acc}({qname}[{iname}]) raised {tl.exc_name(r1)}", bucket=f"{acc}|qualifier")
+                elif k2 == "ok" and r1 != r2:
+                    col.violation("agrees-with-runtime", case, f"{acc}({qname}[{iname}]) = {r1!r}, but {acc}({iname}) = {r2!r}", bucket=f"{acc}|qualifier")
     # TypedDicts of every shape (subclass, no keys at all): keyword parameters = the declared keys, never raises
     for name in ("TD", "TDP", "TDSub", "TDEmpty", "TDPEmpty"):
         td = N[name]
